@@ -62,12 +62,43 @@ func IsVariablePath(expr string) bool {
 	if expr == "" {
 		return false
 	}
+	depth := 0
+	index := 0 // where the content of the innermost open bracket starts
 	for i, ch := range expr {
 		switch {
+		case i == 0 && !IsIdentifierChar(ch, true):
+			// a path starts with a name: 5, -n, 'text' and (a) are literals and expressions
+			return false
 		case IsIdentifierChar(ch, false):
-		case ch == '.' || ch == '[' || ch == ']' || ch == '"' || ch == '\'':
+		case ch == '.':
+		case ch == '[':
+			depth++
+			index = i + 1
+		case ch == ']':
+			// items[0] and data["key"] are paths; items[idx] needs the evaluator to look idx up
+			if depth--; !isLiteralIndex(expr[index:i]) {
+				return false
+			}
+		case (ch == '"' || ch == '\'') && depth > 0:
+			// a quoted key inside brackets; a quote anywhere else makes it a string literal
 		case ch == '-' && i > 0:
 		default:
+			return false
+		}
+	}
+	return true
+}
+
+// isLiteralIndex reports whether the text between brackets is a number or a quoted key.
+func isLiteralIndex(s string) bool {
+	if len(s) >= 2 && (s[0] == '"' || s[0] == '\'') && s[len(s)-1] == s[0] {
+		return true
+	}
+	if s == "" {
+		return false
+	}
+	for _, ch := range s {
+		if ch < '0' || ch > '9' {
 			return false
 		}
 	}
